@@ -236,6 +236,22 @@ def specs(tier):
                 continue            # an empty mask is not a well-formed call (the library represents empty frames as None)
             yield Call("mask_to_coo", [A(im.astype(np.int8)), I(im.shape[0]), I(im.shape[1]), A(np.zeros(nnz, np.uint16), "out"),
                                        A(np.zeros(nnz, np.uint16), "out"), I(nnz), A(np.zeros(im.shape[0], np.int32), "out", lambda r, a: slice(0, 0))])
+        # masks with NEGATIVE int8 values (a 0/255 mask seen as int8, the difference of two masks): with nnz = the number of non-zero
+        # pixels the call is served, with nnz = the number of positive pixels it is refused (return 4) - either way nothing is written
+        # outside i[] / j[]; on a refusal nothing is promised
+        for shp in ((2, 2), (2, 3), (3, 3), (2, 17), (17, 2), (5, 7)):
+            n = shp[0] * shp[1]
+            for variant in range(3):
+                im = (((np.arange(n) * (3 + variant)) % 5) - 2).astype(np.int8).reshape(shp)      # values -2 .. 2, every row mixed
+                if variant == 2:
+                    im[im == 2] = 127
+                    im[im == -2] = -128
+                for nnz in sorted(set((int((im > 0).sum()), int((im != 0).sum())))):
+                    if nnz < 1:
+                        continue
+                    ok_only = lambda r, a: slice(0, len(a) if r == 0 else 0)
+                    yield Call("mask_to_coo", [A(im.copy()), I(shp[0]), I(shp[1]), A(np.zeros(nnz, np.uint16), "out", ok_only),
+                                               A(np.zeros(nnz, np.uint16), "out", ok_only), I(nnz), A(np.zeros(shp[0], np.int32), "out", lambda r, a: slice(0, 0))])
     yield "mask_to_coo", g_mask_to_coo
 
     def g_sparse():
